@@ -468,6 +468,14 @@ func runCmd(dir string, timeout time.Duration, env []string, name string, args .
 // tryReplay builds and runs the replay test. model is unused (values are
 // obtained with get-value on a size-bounded re-solve).
 func tryReplay(e *Engine, o *Obligation, model, dir string) *ReplayResult {
+	return tryReplayMode(e, o, dir, false)
+}
+
+// tryReplayMode: with dropGoal the size-bounded re-solve only asks for an
+// input that reaches the obligation's program point (the solver could not
+// produce a counterexample itself); the concretisation search in the
+// generated test then looks for a failing input near it.
+func tryReplayMode(e *Engine, o *Obligation, dir string, dropGoal bool) *ReplayResult {
 	x := o.X
 	if x == nil || x.fi == nil || x.entry == nil {
 		return nil
@@ -480,7 +488,7 @@ func tryReplay(e *Engine, o *Obligation, model, dir string) *ReplayResult {
 			}
 		}()
 		for _, bound := range []int{3, 8, 40} {
-			r := replayWithBound(e, o, dir, bound)
+			r := replayWithBound(e, o, dir, bound, dropGoal)
 			if r != nil {
 				res = r
 				if r.Failed || !strings.Contains(r.Log, "size-bounded re-solve") {
@@ -492,7 +500,7 @@ func tryReplay(e *Engine, o *Obligation, model, dir string) *ReplayResult {
 	return res
 }
 
-func replayWithBound(e *Engine, o *Obligation, dir string, bound int) *ReplayResult {
+func replayWithBound(e *Engine, o *Obligation, dir string, bound int, dropGoal bool) *ReplayResult {
 	x := o.X
 	sig := x.fi.Obj.Type().(*types.Signature)
 	pkg := x.fi.Pkg.Types
@@ -563,6 +571,12 @@ func replayWithBound(e *Engine, o *Obligation, dir string, bound int) *ReplayRes
 
 	// size-bounded re-solve with get-value
 	script := o.Script(true)
+	if dropGoal {
+		if g := strings.LastIndex(script, "(assert (not "); g >= 0 {
+			end := strings.Index(script[g:], "\n")
+			script = script[:g] + script[g+end+1:]
+		}
+	}
 	k := strings.LastIndex(script, "(check-sat)")
 	var b strings.Builder
 	b.WriteString("(set-option :pp.decimal true)\n(set-option :pp.decimal_precision 17)\n")
